@@ -173,6 +173,8 @@ impl JobServer {
     pub fn setup(max_jobs: i32) -> Result<JobServer, RedoError> {
         assert!(max_jobs >= 0);
         debug_jobserver!("setup({})", max_jobs);
+        #[cfg(feature = "verif")]
+        crate::verif::gate_init();
         let makeflags = parse_makeflags(env::var_os(JobServer::ENV_MAKEFLAGS).unwrap_or_default())
             .map_err(|e| e.with_kind(RedoErrorKind::ImmediateExit(EXIT_INVALID_JOBSERVER)))?;
         let token_fds = match makeflags {
@@ -262,6 +264,11 @@ impl JobServer {
                 }
             }
         };
+        #[cfg(feature = "verif")]
+        crate::verif::event(
+            "js_setup",
+            &format!("max_jobs={} inherited={}", max_jobs, token_fds.is_some()),
+        );
         match token_fds {
             Some(token_fds) => Ok(JobServer {
                 params: Rc::new(ServerParams {
@@ -383,9 +390,13 @@ impl JobServer {
                         Vec::from_iter(state.token_wakers.iter().map(|&(id, _)| id)),
                         Vec::from_iter(rfds.fds(None))
                     );
+                    #[cfg(feature = "verif")]
+                    verif_gate(&state, &rfds, self.params.token_fds.0, next_timer_duration);
                     select::select(None, Some(&mut rfds), None, None, max_delay.as_mut())
                         .map_err(RedoError::opaque_error)?;
                     debug_jobserver!("readable: {:?}", Vec::from_iter(rfds.fds(None)));
+                    #[cfg(feature = "verif")]
+                    verif_woke(&state, &rfds, self.params.token_fds.0);
 
                     for fd in rfds.fds(None) {
                         if fd == self.params.token_fds.0 {
@@ -397,6 +408,11 @@ impl JobServer {
                                     return Err(RedoError::new("unexpected EOF on token read"));
                                 }
                                 Some(1) => {
+                                    #[cfg(feature = "verif")]
+                                    crate::verif::event(
+                                        "tok_read",
+                                        &format!("held={}", state.my_tokens),
+                                    );
                                     state.my_tokens += 1;
                                     debug_jobserver!("read a token ({:?}).", &b);
                                     if let Some((_, w)) = state.token_wakers.pop_front() {
@@ -422,6 +438,8 @@ impl JobServer {
                                 // someone exited with _cheats > 0, so we need to compensate
                                 // by *not* re-creating a token now.
                                 debug_jobserver!("EAT cheatfd {:?}", &b);
+                                #[cfg(feature = "verif")]
+                                crate::verif::event("cheat_eat", "");
                             }
                             Ok(None) | Ok(Some(0)) => {
                                 state.create_tokens(1);
@@ -450,6 +468,11 @@ impl JobServer {
                             }
                         };
                         debug_jobserver!("done1: rv={}", status);
+                        #[cfg(feature = "verif")]
+                        crate::verif::event(
+                            "child_exit",
+                            &format!("pid={} status={} name={}", pd.pid, status, pd.name),
+                        );
                         {
                             let mut state = pd.state.borrow_mut();
                             state.exit_code = Some(status);
@@ -508,7 +531,17 @@ impl JobServer {
             state.destroy_tokens(cheats);
             write_tokens(self.params.cheat_fds.1, state.cheats as usize)
                 .map_err(RedoError::opaque_error)?;
+            #[cfg(feature = "verif")]
+            crate::verif::event("cheat_write", &format!("n={}", state.cheats));
         }
+        #[cfg(feature = "verif")]
+        crate::verif::event(
+            "js_exit",
+            &format!(
+                "my_tokens={} cheats={} top_level={}",
+                state.my_tokens, state.cheats, self.params.top_level
+            ),
+        );
         Ok(())
     }
 }
@@ -571,12 +604,22 @@ impl ServerState {
                 self.my_tokens += 1;
             }
         }
+        #[cfg(feature = "verif")]
+        crate::verif::event(
+            "tok_create",
+            &format!("n={} my_tokens={} cheats={}", n, self.my_tokens, self.cheats),
+        );
     }
 
     /// Destroy n tokens that are currently in our posession.
     fn destroy_tokens(&mut self, n: i32) {
         assert!(self.my_tokens >= n);
         self.my_tokens -= n;
+        #[cfg(feature = "verif")]
+        crate::verif::event(
+            "tok_destroy",
+            &format!("n={} my_tokens={} cheats={}", n, self.my_tokens, self.cheats),
+        );
     }
 
     #[inline]
@@ -605,6 +648,14 @@ impl ServerState {
         }
         assert!(self.my_tokens >= 0);
         assert!(self.cheats >= 0);
+        #[cfg(feature = "verif")]
+        crate::verif::event(
+            "tok_release",
+            &format!(
+                "n={} shared={} my_tokens={} cheats={}",
+                n, n_to_share, self.my_tokens, self.cheats
+            ),
+        );
         if n_to_share > 0 {
             debug_jobserver!("PUT tokenfds {}", n_to_share);
             write_tokens(token_fds.1, n_to_share)?;
@@ -672,6 +723,8 @@ impl JobServerHandle {
             ForkResult::Parent { child: pid } => {
                 helpers::close_on_exec(r, true).map_err(RedoError::opaque_error)?;
                 unistd::close(w).map_err(RedoError::opaque_error)?;
+                #[cfg(feature = "verif")]
+                crate::verif::event("job_start", &format!("pid={} name={}", pid, &reason));
                 let job_state = Rc::new(RefCell::new(JobState::default()));
                 self.state.borrow_mut().wait_fds.insert(
                     r,
@@ -785,6 +838,11 @@ impl JobServerHandle {
                         let mut state = self.state.borrow_mut();
                         state.my_tokens += n;
                         state.cheats += n;
+                        #[cfg(feature = "verif")]
+                        crate::verif::event(
+                            "cheat_take",
+                            &format!("n={} my_tokens={} cheats={}", n, state.my_tokens, state.cheats),
+                        );
                         return Ok(());
                     }
                 }
@@ -1093,6 +1151,49 @@ fn try_read(fd: RawFd, buf: &mut [u8]) -> nix::Result<Option<usize>> {
 }
 
 extern "C" fn timeout_handler(_: c_int) {}
+
+#[cfg(feature = "verif")]
+fn verif_gate(state: &ServerState, rfds: &FdSet, token_fd: RawFd, timer: Option<Duration>) {
+    if !crate::verif::gate_active() {
+        return;
+    }
+    let names: Vec<String> = state
+        .wait_fds
+        .values()
+        .map(|j| format!("{}:{}", j.name, j.pid))
+        .collect();
+    crate::verif::gate(&format!(
+        "my_tokens={} cheats={} running=[{}] want_token={} timer_ms={}",
+        state.my_tokens,
+        state.cheats,
+        names.join(","),
+        rfds.clone().contains(token_fd),
+        timer.map_or(-1, |d| d.as_millis() as i64),
+    ));
+}
+
+#[cfg(feature = "verif")]
+fn verif_woke(state: &ServerState, rfds: &FdSet, token_fd: RawFd) {
+    let mut rf = rfds.clone();
+    let mut parts: Vec<String> = Vec::new();
+    for fd in rf.fds(None) {
+        if fd == token_fd {
+            parts.push("token".into());
+        } else if let Some(j) = state.wait_fds.get(&fd) {
+            parts.push(format!("exit:{}", j.name));
+        }
+    }
+    crate::verif::event(
+        "woke",
+        &format!(
+            "ready=[{}] my_tokens={} cheats={} running={}",
+            parts.join(","),
+            state.my_tokens,
+            state.cheats,
+            state.wait_fds.len()
+        ),
+    );
+}
 
 fn write_tokens(fd: RawFd, n: usize) -> nix::Result<()> {
     let buf: Vec<u8> = iter::repeat(b't').take(n).collect();
